@@ -156,11 +156,9 @@ fn gen_kop(r: &mut Rng, k: usize, has_rank: bool) -> KOp {
             KOp::FromAscii((0..n).map(|_| *r.pick(b"ACGTacgtNn-")).collect())
         }
         2 => {
-            if has_rank {
-                KOp::FromRank(r.dna(k, &[0, 1, 2, 3]))
-            } else {
-                KOp::Empty
-            }
+            let _ = has_rank;
+            // K > 32: "the leading bases will be A's" - the 64-bit rank fills the last 32 bases
+            KOp::FromRank(r.dna(std::cmp::min(k, 32), &[0, 1, 2, 3]))
         }
         3 => KOp::Copy,
         4 => KOp::Set(r.below(k), r.base()),
@@ -732,7 +730,7 @@ pub fn slice_history(sink: &Sink, r: &mut Rng) {
                 }))
             }
         };
-        let mut e = json!({"op":"view","args":args,"case":0});
+        let mut e = json!({"op":"view","args":args,"case":sink.next_case()});
         match res {
             Ok(v) => {
                 let v2 = v.clone();
@@ -918,10 +916,15 @@ where
             2 | 3 if cur_len > 0 => {
                 let p = r.below(cur_len);
                 let v = r.base();
-                ("set", json!([p, v]), Box::new(move |x| {
-                    let mut y = *x;
-                    y.set_mut(p, v);
-                    y
+                let imm = r.chance(1, 3);
+                ("set", if imm { json!([p, v, "imm"]) } else { json!([p, v]) }, Box::new(move |x| {
+                    if imm {
+                        x.set(p, v)
+                    } else {
+                        let mut y = *x;
+                        y.set_mut(p, v);
+                        y
+                    }
                 }))
             }
             4 | 5 | 6 if cur_len > 0 => {
@@ -937,10 +940,16 @@ where
                 let run = r.dna(n, &[0, 1, 2, 3]);
                 let junk = if r.chance(1, 3) { 0 } else if r.chance(1, 2) { u64::MAX } else { r.next() };
                 let val = pack_run(&run, junk);
-                ("set_slice", json!([p, run]), Box::new(move |x| {
-                    let mut y = *x;
-                    y.set_slice_mut(p, n, val);
-                    y
+                let imm = r.chance(1, 3);
+                ("set_slice", if imm { json!([p, run, "imm"]) } else { json!([p, run]) }, Box::new(move |x| {
+                    if imm {
+                        // the copy-returning variant of the MerImmut blanket trait
+                        x.set_slice(p, n, val)
+                    } else {
+                        let mut y = *x;
+                        y.set_slice_mut(p, n, val);
+                        y
+                    }
                 }))
             }
             7 => ("rc", json!([]), Box::new(|x| x.rc())),
